@@ -253,12 +253,13 @@ class ContractFilter(Case):
                 }
 
     def run(self, H):
-        names = ["A", "B", "C"]
-        cs = [types.SimpleNamespace(has_asm_field=H.bool('has_asm%d' % i), shortened_name=names[i], idx=i) for i in range(self.K)]
+        names = ["ERC20", "IERC20", "C"]        # one name is a suffix of another one
+        cs = [types.SimpleNamespace(has_asm_field=H.bool('has_asm%d' % i), shortened_name=names[i], idx=i,
+                                    contract_name="dir/file.sol:" + names[i]) for i in range(self.K)]
         asm = asm_json_mod.AsmJSON("v")
         asm._contracts = list(cs)
         H.it.asm_obj = asm
-        sel = H.choice('selected', [None, "A", "B", "C", "Z"])
+        sel = H.choice('selected', [None, "ERC20", "IERC20", "C", "Z", "20"])
         p = types.SimpleNamespace(input_file="in", contract=sel, generate_log=H.choice('log', [False, True]),
                                   log_file="l", optimization_enabled=True, optimized_file="o", seqs_file="s", blocks_file="b")
         out = H.call(gasol_asm.optimize_asm_in_asm_format, p)
@@ -271,7 +272,8 @@ class ContractFilter(Case):
             if not selected:
                 H.check('unselected-contract-not-optimized', not was_opt)
             else:
-                H.check('selected<=>optimized-iff-has-asm', sym.sym_eq(_b(c.has_asm_field), was_opt) if H.symbolic else True)
+                H.check('selected<=>optimized-iff-has-asm', sym.sym_eq(_b(c.has_asm_field), was_opt) if H.symbolic
+                        else (bool(c.has_asm_field) == was_opt))
         if sel is None:
             H.check('raises-nothing', out.ok, info=repr(out.exc))
             ok = len(dumped) == 1 and isinstance(dumped[0], tuple) and dumped[0][0] == 'ASMJSON' and len(dumped[0][1]) == self.K
